@@ -330,6 +330,17 @@ def o_equality(spec):
             require(must(lambda: ref_side == other, "==") is True,
                     lambda: f"operators whose coefficients differ by {d:.3g} (route {name}) compare unequal: {ref_side!r} vs {other!r}")
             require(must(lambda: other == ref_side, "==") is True, lambda: f"== not symmetric (route {name})")
+        # the zero operator reached by different routes: every one of them denotes the zero matrix (to 1e-8), so they are
+        # equal to each other and to the empty sum, before and after an explicit simplify()
+        zero = PauliSum()
+        zroutes = {"0 * x": 0 * base, "0.0 * x": 0.0 * base, "x * 0": base * 0, "x - x": base - base, "1e-10 * x": 1e-10 * base,
+                   "0j * x": 0j * base, "x * 0 + 0 * x": base * 0 + 0 * base}
+        for name, z in zroutes.items():
+            for label, obj in ((name, z), (name + " simplified", must(z.simplify, "simplify"))):
+                require(pgen.canon_norm(pgen.canon_of(obj)) <= 1e-8, lambda: f"{label} does not denote the zero matrix: {obj!r}")
+                require(must(lambda: obj == zero, "==") is True and must(lambda: zero == obj, "==") is True,
+                        lambda: f"{label} denotes the zero matrix but does not compare equal to the empty sum: {obj!r}")
+                require(must(lambda: obj == zroutes["x * 0"], "==") is True, lambda: f"{label} and x * 0 both denote the zero matrix but compare unequal: {obj!r}")
         return {"classes": ["decimal_routes"] + (["last_place_differs"] if worst > 0 else []), "nontrivial": worst > 0}
     if mode == "perm":
         perm = terms[:]
